@@ -142,6 +142,27 @@ def parser_fault(marker="PARSERBOOM"):
         TokenizedMarkdown.transform_from_provider = orig
 
 
+@contextlib.contextmanager
+def parser_fault_midway(marker="PARSERBOOM"):
+    """While active, the block pass fails when it REACHES a line containing `marker`: an ordinary exception is raised from inside
+    ContainerBlockProcessor.parse_line_for_container_blocks, so that the parser's own try/except turns it into the
+    BadTokenizationError an internal failure gives — after the lines before the marker (pragmas, link reference definitions,
+    open containers) have been processed and whatever state they leave has been collected."""
+    from pymarkdown.container_blocks.container_block_processor import ContainerBlockProcessor
+    orig = ContainerBlockProcessor.parse_line_for_container_blocks
+
+    def wrapped(parser_state, position_marker, *a, **kw):
+        if marker in (position_marker.text_to_parse or ""):
+            raise AssertionError("verif injected parser fault (mid-document)")
+        return orig(parser_state, position_marker, *a, **kw)
+
+    ContainerBlockProcessor.parse_line_for_container_blocks = staticmethod(wrapped)
+    try:
+        yield
+    finally:
+        ContainerBlockProcessor.parse_line_for_container_blocks = staticmethod(orig)
+
+
 # ------------------------------------------------------------------ parser in-process
 _PARSER = {}
 
